@@ -1,7 +1,11 @@
 #!/bin/bash
-# RUSTC_WRAPPER: run the real rustc; for drift_mocks additionally emit its MIR with the same command line
+# RUSTC_WRAPPER: run the real rustc; for the crates named in MIRSYM_EXTRA ("crate_name=out.mir ...") additionally emit
+# their MIR with cargo's exact command line (crates that cannot be selected with -p on their own, and registry dependencies)
 rustc="$1"; shift
-if [ -n "$MIRSYM_DRIFT_OUT" ] && [[ " $* " == *" --crate-name drift_mocks "* ]] && [[ " $* " == *"--crate-type lib"* || " $* " == *"crate-type cdylib"* ]]; then
-  "$rustc" "$@" -Zunpretty=mir -C debug-assertions=off -C overflow-checks=on -o "$MIRSYM_DRIFT_OUT" >/dev/null 2>"$MIRSYM_DRIFT_OUT.log" || true
-fi
+for spec in $MIRSYM_EXTRA; do
+  name=${spec%%=*}; out=${spec#*=}
+  if [[ " $* " == *" --crate-name $name "* ]] && [[ " $* " == *"--crate-type lib"* || " $* " == *"crate-type cdylib"* ]]; then
+    "$rustc" "$@" -Zunpretty=mir -C debug-assertions=off -C overflow-checks=on -o "$out" >/dev/null 2>"$out.log" || true
+  fi
+done
 exec "$rustc" "$@"
